@@ -231,6 +231,15 @@ func (c *SpecCtx) eval(x SExpr) Val {
 			}
 			return Val{T: fmt.Sprintf("(mk_slice (s_base %s) (+ (s_off %s) %s) (- %s %s) (- (s_cap %s) %s))", v.T, v.T, lo, hi, lo, v.T, lo), Ty: v.Ty}
 		}
+		if isStringTy(v.Ty) {
+			if x.Hi != nil {
+				hi = c.evalInt(x.Hi)
+			} else {
+				hi = "(slen " + v.T + ")"
+			}
+			e.needStrSub()
+			return Val{T: "(str_sub " + v.T + " " + lo + " " + hi + ")", Ty: v.Ty}
+		}
 		c.fail("slice expression on %v", v.Ty)
 	case *SAssert:
 		v := c.eval(x.X)
@@ -679,6 +688,9 @@ func (c *SpecCtx) call(x *SCall) Val {
 			c.fail("fresh() needs an old state")
 		}
 		a0 := c.oldHeapTerm(allocHeap, "(Array Int Bool)")
+		if isIntTy(v.Ty) {
+			return bval(and("(> "+v.T+" 0)", "(not (select "+a0+" "+v.T+"))"))
+		}
 		return bval(and("(> "+s.term(v)+" 0)", "(not (select "+a0+" "+s.term(v)+"))"))
 	case "int", "int64", "int32", "int16", "int8", "uint", "uint64", "uint32", "uint16", "uint8", "byte":
 		var bk types.BasicKind
@@ -810,6 +822,7 @@ func (e *Engine) declareSpecFunc(sf *SpecFunc) {
 	}
 	// defined function: evaluate body in a heap-free context
 	st := e.newState()
+	st.noNames = true
 	ctx := &SpecCtx{s: st, vars: map[string]Val{}, pkg: sf.Pkg, what: "pure " + sf.Name}
 	var binders []string
 	for i, p := range sf.Params {
@@ -818,8 +831,10 @@ func (e *Engine) declareSpecFunc(sf *SpecFunc) {
 		ctx.vars[p[0]] = Val{T: n, Ty: sf.PTypes[i]}
 	}
 	body := ctx.eval(sf.Body)
-	if len(st.cmds) > 0 {
-		panic(specError{"pure function " + sf.Name + " reads the heap"})
+	for _, c := range st.cmds {
+		if strings.HasPrefix(c, "(declare-const") {
+			panic(specError{"pure function " + sf.Name + " reads the heap"})
+		}
 	}
 	e.d.add("specfn:"+sf.Name, fmt.Sprintf("(define-fun %s (%s) %s %s)", sf.Sym, strings.Join(binders, " "), e.sortOf(sf.Ret), st.term(body)))
 }
